@@ -122,6 +122,14 @@ def bounded(ctx):
             mid = len(s) // 2
             recs.append(s[:mid] + site + "A" * (a_ + k_ + 2) + s[mid:])
             recs.append(s[:mid] + "T" * (a_ + k_ + 2) + gen.rc(site) + s[mid:])
+        # plasmids with unknown bases (IUPAC N) where the structure allows any letter: spelled N or n alike
+        for s in list(recs[:1]):
+            ent0 = be.observe_entity(cls(CircularRecord(Seq(s), id="r")))
+            if ent0["valid"] is True and len(ent0.get("target", "")) > 2:
+                tpos = (s + s).upper().find(ent0["target"].upper())
+                if tpos >= 0:
+                    q_ = (tpos + len(ent0["target"]) // 2) % len(s)
+                    recs.append(s[:q_] + "N" + s[q_ + 1:])
         for s in recs:
             ref = be.observe_entity(cls(CircularRecord(Seq(s.upper()), id="r")))
             # regional spellings: one occurrence of the recognition site (either strand, also across the origin) in
